@@ -41,6 +41,15 @@ def run_property(prop: str, src: str | None, tier: str):
     ctx = Ctx(model, prop, tier)
     mod = importlib.import_module(f"rules.{prop.lower()}")
     mod.run(ctx)
+    # API census shared by all properties: defaults and refusals of the functions this property is anchored in
+    from sa import contract
+    tab = contract.load()
+    if tab is None:
+        raise AnalysisError("sa/contract.json is missing")
+    owned = sum(1 for v in tab["functions"].values() if prop in v["owners"])
+    ctx.rule(f"{prop}.api", "every option default and every refusal (guard -> exception) of the functions this property is anchored in "
+             "is as confirmed when the census sa/contract.json was taken", owned)
+    contract.check(ctx, prop, f"{prop}.api", floor=owned)
     ctx.verify_floors()
     return model, ctx, mod
 
